@@ -57,7 +57,7 @@ def patch_ids():
 
     def gen(*a, **k):
         _counter[0] += 1
-        return "%05x" % (0xa0000 + _counter[0])
+        return "%06x" % (0xa00000 + _counter[0])
     misc.generate = gen
 
 
